@@ -48,6 +48,9 @@ class SymSet:
     def _contains(self, x):
         return mkbool(z3.Select(self.arr, z3num(x)))
 
+    def _state(self):
+        return [self.arr]
+
     def mem(self, t):
         return z3.Select(self.arr, t)
 
@@ -250,6 +253,7 @@ def _arr(st, cls, field, part, sort):
 
 
 def havoc_field(st, cls, field):
+    st.ghost.setdefault("havocked", set()).add((cls, field))
     h = heap(st)
     for key in list(h):
         if key[0] == cls and key[1] == field:
@@ -302,6 +306,8 @@ class HObj:
             return OptSetToken(z3.Select(A("isnone", B), self.id), z3.Select(A("set", SetSort), self.id))
         if fd.kind == "const":
             return fd.default
+        if fd.kind == "tok":
+            return fd.default(z3.Select(A("v", I), self.id))
         raise Unsupported("field kind %s" % fd.kind)
 
     def write(self, field, v):
@@ -347,7 +353,15 @@ class HObj:
             else:
                 raise Unsupported("store %r into token field %s" % (type(v), field))
         elif fd.kind == "const":
-            raise Unsupported("write to constant field %s" % field)
+            if v is not fd.default:
+                raise Unsupported("write of a different object to constant field %s" % field)
+        elif fd.kind == "tok":
+            if v is None:
+                put("v", I, z3.IntVal(-1))
+            elif hasattr(v, "tok"):
+                put("v", I, v.tok)
+            else:
+                raise Unsupported("store %r into token field %s" % (type(v), field))
         else:
             raise Unsupported("field kind %s" % fd.kind)
 
@@ -490,6 +504,9 @@ class SymObjMap:
     def _getitem(self, key):
         return ObjSetView(self, key)
 
+    def _state(self):
+        return [self.R]
+
     def keys_set(self):
         st = cur()
         K = fresh_set(st, "keys")
@@ -512,3 +529,39 @@ class SymMapItems:
 
     def _elem(self, x):
         return (x, ObjSetView(self.mp, x))
+
+
+class ObjBag:
+    """append-only Python list of heap objects inside a symbolic loop, known through the set of ids it contains"""
+
+    _symbolic_iter = True
+
+    def __init__(self, ids, cls, schema, clsname):
+        self.ids = ids
+        self.cls, self.schema, self.clsname = cls, schema, clsname
+
+    @staticmethod
+    def ids_of(x):
+        if isinstance(x, ObjBag):
+            return x.ids
+        if isinstance(x, list):
+            a = empty_set()
+            for o in x:
+                a = z3.Store(a, o.id, z3.BoolVal(True))
+            return a
+        raise Unsupported("not an object list: %r" % type(x))
+
+    def append(self, o):
+        self.ids = z3.Store(self.ids, o.id, z3.BoolVal(True))
+
+    def _state(self):
+        return [self.ids]
+
+    def _setdom(self):
+        return SymSet(self.ids)
+
+    def _elem(self, x):
+        return HObj(self.cls, self.schema, z3num(x), self.clsname)
+
+    def _len(self):
+        return SymSet(self.ids)._len()
